@@ -12,7 +12,7 @@ use crate::version::semver::core::{
 
 static SEMVER_REGEX: LazyLock<Regex> = LazyLock::new(|| {
     Regex::new(
-        r"(?x)
+        r"(?x-u)
         ^v?(?P<major>0|[1-9]\d*)                            # major version
         \.(?P<minor>0|[1-9]\d*)                            # minor version
         \.(?P<patch>0|[1-9]\d*)                            # patch version
